@@ -409,6 +409,8 @@ class Engine:
             return self.index_value(v, ("int", e[1]))
         if k == "*":
             return self.deref_value(st, v)
+        if k == "unbox":
+            return v[1] if v[0] == "box" else v
         if k == "sub":
             return ("subslice", v, e[1], e[2], e[3])
         return ("proj?", v, e)
@@ -449,6 +451,10 @@ class Engine:
             old = self.proj_field(v, i, e[2])
             return ("upd", v, i, self.update(old, rest, val))
         if k == "down":
+            return self.update(v, rest, val)
+        if k == "unbox":
+            if v[0] == "box":
+                return ("box", self.update(v[1], rest, val))
             return self.update(v, rest, val)
         if k == "srange":
             lo, hi = e[1], e[2]
@@ -741,6 +747,15 @@ class Engine:
                 return v
             return ("icast", v, ft, tt)
         if ck in ("Transmute", "PtrToPtr"):
+            if fromt[0] == "adt" and fromt[1].endswith("NonNull") and op[0] in ("copy", "move") and len(op[1][1]) >= 2 \
+                    and op[1][1][-1][0] == "f" and op[1][1][-2][0] == "f":
+                # `(*b)[i] = x` on a local Box<T>: MIR takes `b.0.pointer as *mut T`; keep it a reference into the
+                # box's own cell so that writes through it land in the box
+                r = self.resolve(st, fr, (op[1][0], op[1][1][:-2]))
+                if r[0] != "val":
+                    cellv = self.read_loc(st, r[0], r[1])
+                    if cellv is not None and cellv[0] in ("box", "lv", "loopout", "some_iter"):
+                        return ("ref", r[0], r[1] + (("unbox",),))
             if v[0] == "boxp":
                 return ("refv", v[1])
             if (fromt[0] == "adt" and fromt[1].endswith("NonNull") and v[0] == "field"
@@ -766,6 +781,12 @@ class Engine:
             if isbool and op in ("Eq", "Ne"):
                 x, y = self.tobdd(a), self.tobdd(b)
                 e = self.bdd.ite(x, y, self.bdd.NOT(y))
+                return ("b", e if op == "Eq" else self.bdd.NOT(e))
+            if op in ("Eq", "Ne") and a[0] == "int" and b[0] == "len":
+                a, b = b, a
+            if op in ("Eq", "Ne") and a[0] == "len" and b[0] == "int":
+                # `v.len() == n`: the same atom a fallible `<[T; n]>::try_from(v)` tests
+                e = self.bdd.var(("len_is", a[1], b[1]))
                 return ("b", e if op == "Eq" else self.bdd.NOT(e))
             if op in ("Eq", "Ne") and b[0] == "int" and a[0] in ("ite", "b"):
                 e = self.eq_int(a, b[1])
@@ -1309,6 +1330,21 @@ class Engine:
                     rel = bdd.restrict(rel, hn, True)
                 o.append(rel)
                 early.append(o)
+        conv = None
+        if info.kind == "generic" and len(early) == 1 and not normal:
+            conv = self.counting_loop(uid, info, M, early[0][3])
+        if conv is not None:
+            # `let mut i = a; while i < B { body(i); i += 1 }`  ==  `for i in a..B { body(i) }`
+            ci, lo, hi, sub_i = conv
+            info.kind = "iter"
+            info.src = ("range", lo, hi)
+            info.counter = ci
+            info.step = {c: self.subst(v, sub_i) for c, v in info.step.items()}
+            info.back_pc = self.bdd_subst(info.back_pc, sub_i) if isinstance(info.back_pc, int) else info.back_pc
+            o = early[0]
+            early, normal = [], [o]
+            o[3] = None
+            o[1] = State({c: (self.subst(v, sub_i) if contains_uid(v, uid) else v) for c, v in o[1].store.items()}, o[1].pc)
         info.early = [(o[3], o[0]) for o in early]
         info.normal = [o[0] for o in normal]
         atoms = []
@@ -1328,10 +1364,15 @@ class Engine:
             # push loops: a vector that starts empty and receives exactly one element per iteration is the
             # element-wise map of the iterated collection (`for .. { v.push(f(..)) }` == `.map(f).collect()`)
             from .models import shape_len, leaves_of
+            n_it, lvs_it = shape_len(self, info.src), tuple(leaves_of(info.src))
             for c in M:
-                closed = self.closed_push_loop(uid, c, info, M, shape_len(self, info.src), tuple(leaves_of(info.src)))
+                closed = self.closed_push_loop(uid, c, info, M, n_it, lvs_it)
                 if closed is None:
-                    closed = self.closed_sum_loop(uid, c, info, M, shape_len(self, info.src), tuple(leaves_of(info.src)))
+                    closed = self.closed_sum_loop(uid, c, info, M, n_it, lvs_it)
+                if closed is None:
+                    closed = self.closed_fill_loop(uid, c, info, M, n_it, lvs_it)
+                if closed is None and getattr(info, "counter", None) == c:
+                    closed = info.src[2]        # the counter leaves the loop at the bound
                 if closed is not None:
                     sub_out[("lv", uid, c)] = closed
         for o in normal:
@@ -1374,6 +1415,74 @@ class Engine:
         if wrap is not None:
             return ("arrayvec", vm, wrap[1])
         return ("collected", vm, "Vec")
+
+    def counting_loop(self, uid, info, M, exit_cond):
+        """Recognise `while i < B { ...; i += 1 }`: sole exit under !(i < B) (or i == B), counter init a, step i + 1,
+        bound loop-invariant.  Returns (counter cell, lo, hi, substitution of the counter by the iteration index)."""
+        bdd = self.bdd
+        lits = bdd.as_conjunction(exit_cond)
+        if not lits or len(lits) != 1:
+            return None
+        atom, pol = lits[0]
+        if atom[0] != "icmp":
+            return None
+        if atom[1] == "Lt" and not pol:
+            cnt, bound = atom[2], atom[3]
+        elif atom[1] == "Eq" and pol:
+            cnt, bound = atom[2], atom[3]
+            if bound[0] == "lv":
+                cnt, bound = bound, cnt
+        else:
+            return None
+        if cnt[0] != "lv" or cnt[1] != uid or cnt[2] not in M or contains_uid(bound, uid):
+            return None
+        ci = cnt[2]
+        init, step = info.init.get(ci), info.step.get(ci)
+        if init is None or step is None or init[0] != "int":
+            return None
+        one = ("int", 1)
+        if not (step[0] == "iadd" and ((step[1] == cnt and step[2] == one) or (step[2] == cnt and step[1] == one))):
+            return None
+        if atom[1] == "Eq" and not (bound[0] == "int" and bound[1] >= init[1]) and bound[0] != "cparam":
+            return None
+        idx = ("idx", uid)
+        val = idx if init[1] == 0 else ("iadd", init, idx, step[3] if len(step) > 3 else "usize")
+        return ci, init, bound, {cnt: val}
+
+    def closed_fill_loop(self, uid, c, info, M, n, leaves):
+        """`for i in 0..N { a[i] = f(i) }` over an array of length N: every slot is written exactly once, so the
+        result is the element-wise map of the index range (the initial contents are irrelevant)."""
+        init, step = info.init.get(c), info.step.get(c)
+        if init is None or step is None or info.src is None:
+            return None
+        if info.src[0] == "range" and info.src[1] != ("int", 0):
+            return None
+        wrap = False
+        base = init
+        if base[0] == "box":
+            base, wrap = base[1], True
+        st = step
+        if st[0] == "box":
+            st = st[1]
+        lv = ("lv", uid, c)
+        if st[0] != "upd_idx" or st[1] not in (lv, ("box", lv)) and not (st[1][0] == "box" and st[1][1] == lv):
+            return None
+        if st[2] != ("idx", uid):
+            return None
+        e = st[3]
+        for c2 in M:
+            if contains_term(e, ("lv", uid, c2)):
+                return None
+        from .models import vec_len
+        n0 = vec_len(self, base)
+
+        def nm(x):
+            return x[1] if isinstance(x, tuple) and x and x[0] in ("cparam", "const") else x
+        if n is None or n0 is None or nm(n0) != nm(n):
+            return None
+        self.__dict__.setdefault("vmaps", {})[uid] = leaves
+        vm = ("vmap", uid, e, leaves, n)
+        return ("box", vm) if wrap else vm
 
     def closed_sum_loop(self, uid, c, info, M, n, leaves):
         """acc' = acc + g(elem) with g free of loop-carried cells  ==>  acc0 + sum(map(g))  (the same term
